@@ -149,6 +149,18 @@ CHECKS["C14"] = {
     "technique": "bounded symbolic execution (CrossHair + z3) of probe/resolve histories over a generated module",
 }
 
+CHECKS["C13"] = {
+    "category": "model_checking",
+    "text": "A population of eight receivers (plain, equal-but-distinct value objects, __eq__ without __hash__, subclass instance, "
+            "receiver parameter called `this`) probed through the class, through one object chosen by a symbolic index, through a "
+            "functools.wraps decorator, a property and a dotted attribute path; a symbolic sequence of calls with a symbolic argument "
+            "runs on the real code; events (value, receiver identity) must be exactly those of calls whose receiver is the probed "
+            "object / any instance; the homonymous module-level function keeps its code. Path trees exhausted.",
+    "design_ref": "DESIGN.md section 4, C13",
+    "note": "Configuration dimension (population, selector spellings) enumerated; probed object, call sequence and argument symbolic.",
+    "technique": "bounded symbolic execution (CrossHair + z3) over a receiver population with symbolic probed object and call sequence",
+}
+
 NOT_YET = {}
 
 
